@@ -27,14 +27,14 @@ Definition count_remove (c : Z) (l : list ev) : nat := length (filter (is_remove
 (* handler invocations that concern connection c *)
 Definition hev_of (c : Z) (h : hev) : bool :=
   match h with
-  | HAdd c' _ | HMsg c' _ _ | HRemove c' _ _ | HCloseCb c' _ => Z.eqb c c'
+  | HAdd c' _ | HMsg c' _ _ | HRemove c' _ _ | HOnClose c' _ | HCloseCb c' _ => Z.eqb c c'
   | HMsgNil _ => false
   end.
 Definition hview (c : Z) (l : list hev) : list hev := filter (hev_of c) l.
 
 (* ---- the life cycle the owning service must observe for one connection ---- *)
 Definition life_open (c id : Z) (ms : list Z) : list hev := HAdd c id :: map (HMsg c id) ms.
-Definition closing (c id : Z) : list hev := [HRemove c id true; HCloseCb c id].
+Definition closing (c id : Z) : list hev := [HRemove c id true; HOnClose c id; HCloseCb c id].
 
 (* at any moment: nothing yet; or one Add then messages (in arrival order); or that followed
    by one Remove (session already deleted from the map) and one close callback - and then
@@ -90,14 +90,15 @@ Definition nth_id (next0 k : Z) : Z := (next0 + k - 1) mod M32 + 1.
 Definition zth (l : list Z) (j : Z) : Z := nth (Z.to_nat j) l 0.
 
 (* ---- boolean monitors ---- *)
-Inductive phase := PhNone | PhOpen (id : Z) | PhRem (id : Z) | PhDone.
+Inductive phase := PhNone | PhOpen (id : Z) | PhRem (id : Z) | PhRem2 (id : Z) | PhDone.
 
 Definition phase_step (c : Z) (ph : phase) (h : hev) : option phase :=
   match ph, h with
   | PhNone, HAdd c' id => if Z.eqb c c' then Some (PhOpen id) else None
   | PhOpen id, HMsg c' id' _ => if Z.eqb c c' && Z.eqb id id' then Some (PhOpen id) else None
   | PhOpen id, HRemove c' id' g => if Z.eqb c c' && Z.eqb id id' && g then Some (PhRem id) else None
-  | PhRem id, HCloseCb c' id' => if Z.eqb c c' && Z.eqb id id' then Some PhDone else None
+  | PhRem id, HOnClose c' id' => if Z.eqb c c' && Z.eqb id id' then Some (PhRem2 id) else None
+  | PhRem2 id, HCloseCb c' id' => if Z.eqb c c' && Z.eqb id id' then Some PhDone else None
   | _, _ => None
   end.
 
@@ -118,7 +119,7 @@ Fixpoint subseqb (s l : list Z) : bool :=
    close callback, and its messages are in arrival order *)
 Definition life_b (c : Z) (v : list hev) (arrived : list Z) : bool :=
   match phase_run c PhNone v with
-  | Some (PhRem _) | None => false
+  | Some (PhRem _) | Some (PhRem2 _) | None => false
   | Some _ => subseqb (hmsgs v) arrived
   end.
 Definition complete_b (c : Z) (v : list hev) : bool :=
